@@ -423,6 +423,8 @@ def _pure(e):
         return _pure(e.left) and _pure(e.right)
     if isinstance(e, ast.UnaryOp):
         return _pure(e.operand)
+    if isinstance(e, ast.Subscript) and isinstance(e.value, ast.Name) and isinstance(e.slice, ast.Constant):
+        return True         # (the caller checks that nothing stores into / calls with the container while the temporary is in use)
     if isinstance(e, ast.Call) and isinstance(e.func, ast.Name) and e.func.id in ('slice', 'len') and not e.keywords:
         return all(_pure(a) for a in e.args)
     return False
@@ -503,7 +505,15 @@ def inline_new_temps(module_name, tree):
                         rest = lst[i + 1:]
                         inside = [x for r_ in rest for x in ast.walk(r_)]
                         operands = set(x.id for x in ast.walk(st.value) if isinstance(x, ast.Name))
-                        if all(any(l_ is x for x in inside) for l_ in loads) and not any(
+                        containers = set(x.value.id for x in ast.walk(st.value) if isinstance(x, ast.Subscript) and isinstance(x.value, ast.Name))
+                        touched = any(
+                            (isinstance(x, (ast.Subscript, ast.Attribute)) and isinstance(x.ctx, (ast.Store, ast.Del)) and isinstance(x.value, ast.Name)
+                             and x.value.id in containers) or
+                            (isinstance(x, ast.Call) and (any(isinstance(a, ast.Name) and a.id in containers for a in x.args) or
+                                                          (isinstance(x.func, ast.Attribute) and isinstance(x.func.value, ast.Name)
+                                                           and x.func.value.id in containers and x.func.attr not in ('get', 'keys', 'values', 'items'))))
+                            for x in inside) if containers else False
+                        if not touched and all(any(l_ is x for x in inside) for l_ in loads) and not any(
                                 isinstance(x, ast.Name) and isinstance(x.ctx, (ast.Store, ast.Del)) and x.id in operands for x in inside) and \
                                 not any(isinstance(x, (ast.Lambda, ast.FunctionDef)) for x in inside):
                             value = st.value
